@@ -639,7 +639,7 @@ fn main() {
                     x /= n;
                 }
                 count += 1;
-                let sel = if count % (if args.thorough() { 23 } else { 67 }) == 0 { VarSel::Sample } else { VarSel::None };
+                let sel = if count % (if args.thorough() { 97 } else { 67 }) == 0 { VarSel::Sample } else { VarSel::None };
                 cases.push((s, sel));
             }
         }
@@ -649,7 +649,7 @@ fn main() {
             lmax, count
         );
         // 3. PRNG histories with variants
-        let n_rand = if args.thorough() { 1200 } else { 60 };
+        let n_rand = if args.thorough() { 400 } else { 60 };
         for c in 0..n_rand {
             let len = 3 + rng.usize(8);
             let mut s = vec![];
@@ -736,7 +736,17 @@ fn main() {
                 let sig = if s_hist == "viol durable" {
                     "durable-record-lost"
                 } else if s_hist == "viol core" {
-                    if o.ops_txt.contains('r') || o.ops_txt.contains('k') { "sequence-after-reopen" } else { "history-replay" }
+                    // `Wal::new` on the final directory resumed below a sequence that is on disk,
+                    // or the history reopened: the structural class of defect #1
+                    let final_obs = lines[*a + 1].rsplit(' ').next().unwrap_or("");
+                    let cur: u64 = final_obs.split('|').next().and_then(|c| c.parse().ok()).unwrap_or(0);
+                    let last: u64 = final_obs
+                        .split('|')
+                        .nth(1)
+                        .and_then(|r| r.rsplit('/').next())
+                        .and_then(|l| l.parse().ok())
+                        .unwrap_or(0);
+                    if cur < last || o.ops_txt.contains('r') || o.ops_txt.contains('k') { "sequence-after-reopen" } else { "history-replay" }
                 } else {
                     "driver-rejected"
                 };
